@@ -88,6 +88,7 @@ func hdrTuple(h *config.Header) string {
 
 // indexCollect runs the real indexer (real decrypt + verify callbacks) and collects every header it accepts.
 func indexCollect(r *Rig) (accepted []string, err error) {
+	stepBegin()
 	rd, err := r.BE.GetReader()
 	if err != nil {
 		return nil, err
@@ -105,6 +106,7 @@ func indexCollect(r *Rig) (accepted []string, err error) {
 }
 
 func queryCollect(r *Rig) (accepted []string, err error) {
+	stepBegin()
 	rd, err := r.BE.GetReader()
 	if err != nil {
 		return nil, err
@@ -116,6 +118,7 @@ func queryCollect(r *Rig) (accepted []string, err error) {
 
 // fetchWithHeader restores the record at a position and reports the (verified) header recovery.Fetch used.
 func fetchWithHeader(r *Rig, record, block int64) (data []byte, hdr *config.Header, err error) {
+	stepBegin()
 	rd, err := r.BE.GetReader()
 	if err != nil {
 		return nil, nil, err
